@@ -301,4 +301,6 @@ def obligations():
     return (statement_rows() + hbuff_prologue() + record_types() + device_functions_per_occurrence() + parser_builds_a_tree() + poke_addresses()
             + share("temporaries/", temp_sequences()) + share("kind/", rule_kinds()) + share("operand-values/", __import__("tx.p_c01", fromlist=["x"]).hex_values())
             # the handle `pid` the prologue declares is the runtime's: the initialiser leaves it alone (shared with C09)
-            + share("init/", __import__("tx.p_c09", fromlist=["x"]).initializer_positions() + __import__("tx.p_c09", fromlist=["x"]).initializer_skips_generated()))
+            + share("init/", __import__("tx.p_c09", fromlist=["x"]).initializer_positions() + __import__("tx.p_c09", fromlist=["x"]).initializer_skips_generated())
+            # device functions are sampled in source order and each result travels in its own generated temporary (shared with C05 / C09)
+            + share("order/", __import__("tx.p_c05", fromlist=["x"]).call_order_through_convert()) + share("destinations/", __import__("tx.p_c09", fromlist=["x"]).temporaries_are_generated_names()))
